@@ -113,7 +113,8 @@ claim("C09", "call-graph reachability + panic-site inventory; interprocedural ty
       " (c) Progress: an abstract interpreter over the MIR runs the prefix of every parser routine that executes on an unchanged look-ahead, for "
       "every terminal kind and calling context, and shows that a list element parser never returns Ok / Err(DoNothing) without having consumed a "
       "token, that no loop of the parser can go round without consuming (at end of file: without leaving), that no routine re-enters itself on an "
-      "unchanged look-ahead; the same over the lexer with the next character as look-ahead (every loop takes a character, match_terminal advances)." +
+      "unchanged look-ahead, that a routine which panics for some next-terminal kinds (an unreachable!() arm of a dispatch on the kind) is reached "
+      "only with the other kinds; the same over the lexer with the next character as look-ahead (every loop takes a character, match_terminal advances)." +
       DECIDES + " Stack depth on nested input, termination of the formatter, and totality of semantic/lowering diagnostics on garbage are not decided.",
       "trusted: rustc MIR, fact dumper; for (b) calls that take &mut Parser outside the non-consuming list are assumed to consume; for (c) the token window moves only in Parser::take_raw/advance and the character cursor only in Lexer::take (R10.1), a call that cannot be interpreted is reported; class-U inventory rows carry no safety claim",
       "DESIGN.md section 4, C09")
